@@ -410,7 +410,8 @@ type sexpr struct {
 	l, r *sexpr
 }
 
-var cmpOps = []influxql.Token{influxql.EQ, influxql.NEQ, influxql.LT, influxql.LTE, influxql.GT, influxql.GTE, influxql.MATCHPHRASE, influxql.IPINRANGE}
+var cmpOps = []influxql.Token{influxql.EQ, influxql.MATCHPHRASE, influxql.IPINRANGE}               // a filter lookup decides them
+var cmpOOps = []influxql.Token{influxql.NEQ, influxql.LT, influxql.LTE, influxql.GT, influxql.GTE} // in switchMap, never looked up
 var cmpNSOps = []influxql.Token{influxql.MATCH, influxql.LIKE}
 var badOps = []influxql.Token{influxql.ADD, influxql.MUL, influxql.BITWISE_AND}
 
@@ -443,6 +444,8 @@ func (e *sexpr) ast(r *hx.Rng) influxql.Expr {
 		tok = influxql.OR
 	case "cmp":
 		tok = cmpOps[r.Intn(len(cmpOps))]
+	case "cmpo":
+		tok = cmpOOps[r.Intn(len(cmpOOps))]
 	case "cmpns":
 		tok = cmpNSOps[r.Intn(len(cmpNSOps))]
 	default:
@@ -466,17 +469,21 @@ func (g *isexGen) atom() *sexpr {
 	g.nlit++
 	g.truths = append(g.truths, r.Bool())
 	x := r.Intn(100)
+	cls := "cmp"
+	if r.Chance(35) {
+		cls = "cmpo"
+	}
 	switch {
 	case x < 78:
-		return &sexpr{kind: 'B', op: "cmp", l: v, r: lit}
+		return &sexpr{kind: 'B', op: cls, l: v, r: lit}
 	case x < 84: // literal on the left: ConvertToRPNExpr swaps
-		return &sexpr{kind: 'B', op: "cmp", l: lit, r: v}
+		return &sexpr{kind: 'B', op: cls, l: lit, r: v}
 	case x < 88:
 		g.wf = false
 		return &sexpr{kind: 'B', op: "cmpns", l: v, r: lit}
 	case x < 91:
 		g.wf = false
-		return &sexpr{kind: 'B', op: "cmp", l: v, r: &sexpr{kind: 'V', n: r.Intn(g.nvars)}}
+		return &sexpr{kind: 'B', op: cls, l: v, r: &sexpr{kind: 'V', n: r.Intn(g.nvars)}}
 	case x < 94:
 		g.wf = false
 		return v
@@ -485,7 +492,7 @@ func (g *isexGen) atom() *sexpr {
 		l2 := &sexpr{kind: 'L', n: g.nlit}
 		g.nlit++
 		g.truths = append(g.truths, r.Bool())
-		return &sexpr{kind: 'B', op: "cmp", l: lit, r: l2}
+		return &sexpr{kind: 'B', op: cls, l: lit, r: l2}
 	case x < 98:
 		g.wf = false
 		return &sexpr{kind: 'B', op: "bad", l: v, r: lit}
@@ -1001,8 +1008,6 @@ func (b *bcase) classify(row []sval) string {
 			return
 		}
 		switch {
-		case reader == "ft" && a.field >= 0 && a.op != "mp" && a.op != "eq":
-			classes["bloom_fulltext_operator_ignored"] = true
 		case b.split == "e":
 			classes["bloom_writer_without_split_tokens"] = true
 		case high:
@@ -1020,11 +1025,11 @@ func (b *bcase) classify(row []sval) string {
 		if len(bfSchema) > 0 && a.field == bfSchema[0] && a.op == "mp" {
 			explain(a, "bf", []sval{row[a.field]})
 		}
-		if len(ftSchema) > 0 && (a.field < 0 || hasInt(ftSchema, a.field)) {
+		if len(ftSchema) > 0 && (a.field < 0 || hasInt(ftSchema, a.field)) && (a.op == "mp" || a.op == "eq") {
 			explain(a, "ft", row) // the full-text filter holds every string column of the row
 		}
 	})
-	for _, k := range []string{"bloom_lookup_not_written_unexplained", "set_index_unimplemented_prunes_all", "bloom_fulltext_operator_ignored", "bloom_writer_without_split_tokens",
+	for _, k := range []string{"bloom_lookup_not_written_unexplained", "set_index_unimplemented_prunes_all", "bloom_writer_without_split_tokens",
 		"bloom_phrase_without_token_prunes_all", "bloom_multibyte_tokenization_mismatch", "bloom_ngram_lookup_never_written"} {
 		if classes[k] {
 			if k == "bloom_lookup_not_written_unexplained" {
@@ -1298,7 +1303,7 @@ func (b *bcase) opLine() string {
 	return fmt.Sprintf("bloom %s %s %d %d %s %d %s %s", b.kind, b.split, b.rpf, b.minRows, rangesOp(b.ranges), b.nIdx, strings.Join(segs, "|"), b.cond.text(b))
 }
 
-var idxOid = map[string]indextype.IndexType{"bf": indextype.BloomFilter, "ft": indextype.BloomFilterFullText, "set": indextype.Set, "tc": indextype.TimeCluster}
+var idxOid = map[string]indextype.IndexType{"bf": indextype.BloomFilter, "ft": indextype.BloomFilterFullText, "set": indextype.Set, "tc": indextype.TimeCluster, "tx": indextype.Text}
 
 func (b *bcase) relation() *influxql.IndexRelation {
 	rel := &influxql.IndexRelation{}
@@ -1526,12 +1531,12 @@ func runPMatch(c *hx.Ctx, r *hx.Rng) {
 // ---------------------------------------------------------------------------------------------
 
 func runSkip(c *hx.Ctx) error {
-	c.Stats.Rule += " || skip indexes: SKIndexReaderImpl.Scan over scripted readers (answers 1/0/error, ascending and malformed ranges, any seek threshold) and over the real set reader; SKConditionImpl (ConvertToRPNExpr + convertToRPNElem + IsExist) over scripted atom answers on AND/OR trees incl. malformed ones; MinMaxIndexReader with a test ReadFunc (arbitrary int records; sorted int/float/string/bool columns with the boundary layout and the row oracle); bloom filter (index list of 1..3 columns) / full-text bloom filter / relations with both side by side (index lists in any order, set and time-cluster entries) written by the real index writers from generated string columns (nulls, empty, separators, non-ASCII, arbitrary bytes, long tokens, short last block) and read back by the readers the real CreateSKFileReaders builds (ReInit + Scan per reader) under =,!=,<,>,match-phrase,AND,OR conditions with atoms on the served column, on other index columns, on unindexed columns and on __log___; time cluster: QuerySchema.GetTimeRangeByTC + GetTimeCondition against the cluster values SortHelper.SortForColumnStore writes (durations 1ns..1d, times before 1970, open ranges); non-trivial = some fragment dropped and some kept"
+	c.Stats.Rule += " || skip indexes: SKIndexReaderImpl.Scan over scripted readers (answers 1/0/error, ascending and malformed ranges, any seek threshold) and over the real set reader; SKConditionImpl (ConvertToRPNExpr + convertToRPNElem + IsExist) over scripted atom answers on AND/OR trees incl. malformed ones; MinMaxIndexReader with a test ReadFunc (arbitrary int records; sorted int/float/string/bool columns with the boundary layout and the row oracle); bloom filter (index list of 1..3 columns) / full-text bloom filter / relations with both side by side (index lists in any order, set and time-cluster entries) written by the real index writers from generated string columns (nulls, empty, separators, non-ASCII, arbitrary bytes, long tokens, short last block) and read back by the readers the real CreateSKFileReaders builds (ReInit + Scan per reader) under =,!=,<,>,match-phrase,AND,OR conditions with atoms on the served column, on other index columns, on unindexed columns and on __log___; text (inverted) index written by the real cgo builder and read through CreateSKFileReaders / TextIndexReader (one or two index columns, up to 36 segments = three parts, ASCII / multi-byte / mixed text); time cluster: QuerySchema.GetTimeRangeByTC + GetTimeCondition against the cluster values SortHelper.SortForColumnStore writes (durations 1ns..1d, times before 1970, open ranges); non-trivial = some fragment dropped and some kept"
 	n := c.Budget(8000, 600000)
 	r := hx.NewRng(c.Seed ^ 0x5c20511b)
 	nScan, nSet, nIsx, nMmx, nBloom := n/4, n/40, n/5, n/40, n/8
-	if nBloom > 24000 {
-		nBloom = 24000
+	if nBloom > 16000 {
+		nBloom = 16000
 	}
 	for i := 0; i < nScan; i++ {
 		runSkipScan(c, r)
@@ -1568,10 +1573,22 @@ func runSkip(c *hx.Ctx) error {
 	for i := 0; i < n/20; i++ {
 		runTimeCluster(c, r)
 	}
+	nText := n / 16
+	if nText > 8000 {
+		nText = 8000
+	}
+	for i := 0; i < nText; i++ {
+		if err := runText(c, r, work); err != nil {
+			return err
+		}
+		if i%100 == 99 {
+			runtime.GC()
+		}
+	}
 	// detached (OBS) layout: one vertical group = 128 filters of 256 KiB per index column and case
 	nDet := 40
 	if c.Tier == "thorough" {
-		nDet = 600
+		nDet = 300
 	}
 	for i := 0; i < nDet; i++ {
 		if err := runBloomDetached(c, r, work); err != nil {
